@@ -831,6 +831,17 @@ impl<'p> Interp<'p> {
                         if a.is_empty() {
                             return Err(Stop::Ambiguous("replace with an empty pattern (undocumented at script level)"));
                         }
+                        // the result can be (|s| / |a|) x |b| bytes: check the budget before building it
+                        let mut count = 0u64;
+                        let mut pos = 0usize;
+                        while let Some(i) = naive_find(&s.as_bytes()[pos..], a.as_bytes()) {
+                            count += 1;
+                            pos += i + a.len();
+                        }
+                        let predicted = (s.len() as u64).saturating_add(count.saturating_mul(b.len() as u64));
+                        if self.allocated.saturating_add(predicted) > self.limits.max_alloc {
+                            return Err(Stop::Budget);
+                        }
                         Ok(RVal::Str(naive_replace(&s, a, b)))
                     }
                     ("to_number", []) => {
@@ -880,6 +891,11 @@ impl<'p> Interp<'p> {
                 match (name, argv.as_slice()) {
                     ("len", []) => Ok(RVal::Num(items.len() as f64)),
                     ("join", [RVal::Str(sep)]) => {
+                        // (n - 1) x |sep| bytes on top of the elements: check the budget first
+                        let predicted = (items.len() as u64).saturating_mul(sep.len() as u64);
+                        if self.allocated.saturating_add(predicted) > self.limits.max_alloc {
+                            return Err(Stop::Budget);
+                        }
                         let mut out = String::new();
                         for (i, it) in items.iter().enumerate() {
                             if i > 0 {
